@@ -176,15 +176,15 @@ Proof.
         -- assert (E1 : drun c clock st [ESr (sr_bytes rt msw lsw)] = (mkD (d_g st) rt, [], false)).
            { cbn [drun dstep]. rewrite B0, (sr_decode_ok rt msw lsw Urt). reflexivity. }
            destruct (IH (k + 0) (mkD (d_g st) rt) m) as [st2 E2]; auto;
-             try (simpl in LM |- *; lia); try (split; cbn [d_g]; auto; replace (k + 0) with k by lia; auto).
+             try lia; try (simpl in LM; lia); try (split; cbn [d_g]; auto; replace (k + 0) with k by lia; auto).
            rewrite (drun_app _ _ _ _ _ _ _ E1), E2. exists st2. reflexivity.
         -- assert (E1 : drun c clock st [ESr (sr_bytes rt msw lsw)] = (st, [], false)).
            { cbn [drun dstep]. rewrite B0. reflexivity. }
            destruct (IH (k + 0) st m) as [st2 E2]; auto;
-             try (simpl in LM |- *; lia); try (split; cbn [d_g]; auto; replace (k + 0) with k by lia; auto).
+             try lia; try (simpl in LM; lia); try (split; cbn [d_g]; auto; replace (k + 0) with k by lia; auto).
            rewrite (drun_app _ _ _ _ _ _ _ E1), E2. exists st2. reflexivity.
       * destruct (IH (k + 0) st m) as [st2 E2]; auto;
-          try (simpl in LM |- *; lia); try (split; cbn [d_g]; auto; replace (k + 0) with k by lia; auto).
+          try lia; try (simpl in LM; lia); try (split; cbn [d_g]; auto; replace (k + 0) with k by lia; auto).
         simpl app. rewrite E2. exists st2. reflexivity.
 Qed.
 
@@ -214,11 +214,30 @@ Theorem demux_loss c clock seq0 items mask :
               = (st', tspec c clock 0 items mask, false).
 Proof.
   unfold case_wf. intros H.
+  apply andb_true_iff in H as [H _].
   apply andb_true_iff in H as [H HB]. apply andb_true_iff in H as [H HL]. apply andb_true_iff in H as [H HO].
   apply andb_true_iff in H as [H _]. apply andb_true_iff in H as [HC _].
   apply Nat.eqb_eq in HL.
   apply (demux_loss_gen c clock seq0 items 0 dst_init mask); auto; try lia.
   split; [reflexivity | left; reflexivity].
+Qed.
+
+(* with every sender report ahead of the media there is one clock base *)
+Lemma tspec_no_sr c clock : forall items b mask, sr_before_data true items = true ->
+  tspec c clock b items mask = tspec_fixed c clock b items mask /\ final_base c b items mask = b.
+Proof.
+  induction items as [|[it|rt msw lsw] r IH]; intros b mask H;
+    cbn [tspec tspec_fixed final_base sr_before_data negb andb] in *; auto.
+  - destruct (IH b (skipn (dnpk c it) mask) H) as [-> ->]. auto.
+  - discriminate.
+Qed.
+
+Lemma tspec_is_one c clock : forall items b mask, sr_before_data false items = true ->
+  tspec c clock b items mask = tspec_fixed c clock (final_base c b items mask) items mask.
+Proof.
+  induction items as [|[it|rt msw lsw] r IH]; intros b mask H;
+    cbn [tspec tspec_fixed final_base sr_before_data negb andb] in *; auto.
+  destruct (tspec_no_sr c clock r b (skipn (dnpk c it) mask) H) as [-> ->]. reflexivity.
 Qed.
 
 (* the oracle accepts the model on every well-formed case *)
@@ -228,5 +247,8 @@ Theorem model_passes_loss c clock seq0 items mask :
   ok_loss c clock items mask fs pn = true.
 Proof.
   intros H. destruct (demux_loss c clock seq0 items mask H) as [st' E]. rewrite E.
-  unfold ok_loss. simpl. apply list_eqb_refl. apply oframe_eqb_refl.
+  unfold ok_loss, tspec_one. simpl negb. simpl andb.
+  assert (SB : sr_before_data false items = true).
+  { unfold case_wf in H. apply andb_true_iff in H as [_ H]. exact H. }
+  rewrite <- (tspec_is_one c clock items 0 mask SB). apply list_eqb_refl. apply oframe_eqb_refl.
 Qed.
